@@ -58,9 +58,11 @@ PROPS = {
              "cancel landed while a task was waiting for inputs or computing."),
     "C06": a("the final build of each history executed from identical state under several schedules/queue kinds and compared with "
              "the canonical synchronous execution; protocol monitor on every callback; hang detection by scheduler quiescence; "
-             "same workloads under ThreadSanitizer with the scheduler uninstrumented. Non-trivial: >=2 tasks computing concurrently.",
+             "same workloads under ThreadSanitizer with the scheduler uninstrumented; in a share of database-backed plans one BuildDB call "
+             "of the last build (setRuleResult / lookupRuleResult / buildStarted / setCurrentIteration) fails through a forwarding wrapper, "
+             "after which only 'the build comes back and leaves no task or thread behind' is judged. Non-trivial: >=2 tasks computing concurrently.",
              tsan={"quick": 25, "thorough": 300}),
-    "C07": a("programs with back edges (static, dynamic, order-only) and reprogramming that leaves stale recorded edges; every "
+    "C07": a("programs with back edges (static, dynamic, order-only, single-use) and reprogramming that leaves stale recorded edges; every "
              "cycle report validated edge by edge; reference says whether a clean evaluation is cyclic. Non-trivial: a cycle was "
              "reported or required, or an incremental build skipped work."),
     "C16": {"level": "exploration",
@@ -134,7 +136,8 @@ PROPS.update({
 
 PROPS["C13"] = {
     "level": "exploration",
-    "rule": "seeded pairs of observations of one path (missing / file / directory / symlink followed or as link) with one mutation in between "
+    "rule": "seeded pairs of observations of one path (missing / file / directory / symlink; through getFileInfo or, for half the symlinks and a "
+            "quarter of the rest, getLinkInfo; one case in ten with empty content) with one mutation in between "
             "(none, content same size, content same size AND same mtime, content other size, mtime only, inode replaced only, inode and "
             "mtime, retype, delete, create, all-zero stat) x the three file-system modes, with short reads injected while checksumming; "
             "each comparison result is checked against the statement. Non-trivial: a run with at least three distinct mutation kinds.",
@@ -151,7 +154,8 @@ PROPS["C20"] = a("C01's generator restricted to what core.h can express (no sign
                  "executed once through the C++ interface and once through llb_buildengine_* / llb_task_* with the same rule/task logic "
                  "objects behind C callbacks, canonical completion mode; compared build by build (result, executed set, provided values, "
                  "callback sequence) and by the final database dump; force_change, must-follow, discovered dependencies, NUL bytes in keys and "
-                 "values and attach_db schema versions are all generated. Non-trivial: an incremental build that both skipped and executed rules.")
+                 "values and attach_db schema versions are all generated; 15% of programs contain cycles, so builds abandoned by a cycle report and the "
+                 "builds after them on the same engine are compared too. Non-trivial: an incremental build that both skipped and executed rules.")
 PROPS["C20"]["components"] = dict(WORLD_A_COMPONENTS, real=WORLD_A_COMPONENTS["real"] + ["products/libllbuild/Core-C-API.cpp", "products/libllbuild/C-API.cpp"])
 
 WORLD_D_COMPONENTS = {
